@@ -510,6 +510,18 @@ fn dump_body<'tcx>(
 			}
 		}
 	}
+	if matches!(kind, DefKind::Closure) {
+		if let Some(ldid) = did.as_local() {
+			out.push_str(",\"upvars\":[");
+			for (i, c) in tcx.closure_captures(ldid).iter().enumerate() {
+				if i > 0 {
+					out.push(',');
+				}
+				jstr(out, &c.to_string(tcx));
+			}
+			out.push(']');
+		}
+	}
 	let _ = write!(out, ",\"argc\":{}", body.arg_count);
 	// locals
 	out.push_str(",\"locals\":[");
